@@ -200,28 +200,22 @@ theorem targets_nonempty_or_error (o : Oracles) (name : Cidr.Str) (hs : Spec.Srv
 /-- RoundTrip connects only to targets ResolveServer returned (or that the resolution cache held), each
     with the Host header and TLS server name of that target; with an empty cache every attempt is a target of
     the resolution of the requested name. -/
-theorem roundtrip_uses_only_targets (o : Oracles) (name : Cidr.Str) (reach : Target → Reach) (tr : Trip)
+theorem roundtrip_uses_only_targets (o : Oracles) (name : Cidr.Str) (reach : Network) (tr : Trip)
     (h : roundTrip o name reach none = .ok tr) :
     ∃ ts, resolve o name = .ok ts ∧ ∀ a ∈ tr.attempts, a.1 ∈ ts := by
-  have htry : ∀ (l : List Target) a, a ∈ (tryTargets reach l).1 → a.1 ∈ l := by
+  have htry : ∀ (l : List Target) (hist : List (Target × Reach)) a, a ∈ (tryTargets reach hist l).1 → a.1 ∈ l := by
     intro l
     induction l with
-    | nil => intro a ha; simp [tryTargets] at ha
+    | nil => intro hist a ha; simp [tryTargets] at ha
     | cons t ts ih =>
-      intro a ha
+      intro hist a ha
       unfold tryTargets at ha
-      cases hr : reach t with
-      | ok => simp [hr] at ha; subst ha; simp
-      | tlsFail =>
-        simp only [hr, List.mem_cons] at ha
+      split at ha
+      · simp at ha; subst ha; simp
+      · simp only [List.mem_cons] at ha
         rcases ha with rfl | ha
         · simp
-        · exact List.mem_cons_of_mem _ (ih a ha)
-      | refused =>
-        simp only [hr, List.mem_cons] at ha
-        rcases ha with rfl | ha
-        · simp
-        · exact List.mem_cons_of_mem _ (ih a ha)
+        · exact List.mem_cons_of_mem _ (ih _ a ha)
   unfold roundTrip at h
   cases hres : resolve o name with
   | error e => simp [hres] at h
@@ -232,11 +226,32 @@ theorem roundtrip_uses_only_targets (o : Oracles) (name : Cidr.Str) (reach : Tar
     · cases h
     · split at h
       · simp only [Except.ok.injEq] at h; subst h
-        intro a ha; exact htry ts a ha
+        intro a ha; exact htry ts _ a ha
       · simp only [Except.ok.injEq] at h; subst h
         intro a ha
         simp only [List.mem_append] at ha
-        rcases ha with ha | ha <;> exact htry ts a ha
+        rcases ha with ha | ha <;> exact htry ts _ a ha
+
+/-- `roundtrip_attempts_are_spec_results`: against ANY network — including one whose answers depend on what was
+    attempted before, e.g. a server that fails once — every connection attempt RoundTrip makes for a name with
+    an empty resolution cache, in the first pass and in the retry pass, goes to a target the SPECIFICATION's
+    resolution of the ORIGINAL server name yields, with the Host header and TLS server name the specification
+    assigns to that target (a `Target` carries all three).  This is the clause `resolve.roundtrip_props`
+    evaluates on the implementation's trace. -/
+theorem roundtrip_attempts_are_spec_results (o : Oracles) (hs : Spec.SrvSane o.srv) (name : Cidr.Str) (reach : Network) (tr : Trip)
+    (h : roundTrip o name reach none = .ok tr) :
+    ∃ ts, Spec.resolve o name = .ok ts ∧ ∀ a ∈ tr.attempts, a.1 ∈ ts := by
+  obtain ⟨ts, hr, hall⟩ := roundtrip_uses_only_targets o name reach tr h
+  exact ⟨ts, by rw [← resolve_eq_spec o name hs]; exact hr, hall⟩
+
+/-- a non-trivial instance: one SRV target that drops the first connection and answers the second — the retry
+    pass goes to the same target, with the Host header and TLS server name of the original name -/
+example :
+    (roundTrip { wk := fun _ => none, srv := fun svc _ => if svc = "matrix-fed".toList then .records [("t1.test.".toList, 4)] else .notFound }
+      "hs.test".toList (fun hist _ => if hist.isEmpty then .dropped else .ok) none).map (fun tr => (tr.attempts, tr.ok))
+    = .ok ([(⟨"t1.test:4".toList, "hs.test".toList, "hs.test".toList⟩, .dropped),
+            (⟨"t1.test:4".toList, "hs.test".toList, "hs.test".toList⟩, .ok)], true) := by
+  rfl
 
 end Resolution
 
